@@ -7,6 +7,7 @@ import (
 	"io"
 	"os"
 	"path/filepath"
+	"reflect"
 	"regexp"
 	"runtime"
 	"sort"
@@ -848,6 +849,24 @@ func checkC06Judge(rc *Run, res *TLCResult, final, split []*jrun, parallel func(
 	}
 	rc.Sample(M{"direction": final[0].dir, "argv": final[0].args, "stdin": final[0].input, "stdout": final[0].out})
 	rc.Sample(M{"direction": final[len(final)-1].dir, "argv": final[len(final)-1].args, "stdin": final[len(final)-1].input, "stdout": final[len(final)-1].out})
+	// ---- JSON strings whose YAML spelling the pools do not reach: a multi-line text holding U+2028 / U+2029 / U+0085 (line breaks
+	// of their own to a YAML reader) must come back from JSON -> YAML -> JSON as it was
+	{
+		xdir := filepath.Join(rc.Out, "extra")
+		os.MkdirAll(xdir, 0o755)
+		for _, js := range []string{`["\u2028\na"]`, `["a\n\u2029b\n"]`, `{"k":"x\u0085\ny"}`, `["\u2028"]`, `["plain\nlines\n"]`} {
+			y := runProc(xdir, []byte(js), "-p=json", "-o=yaml", "--unwrapScalar=false", ".")
+			back := runProc(xdir, []byte(y.Stdout), "-p=yaml", "-o=json", "-I0", ".")
+			var want, got interface{}
+			if json.Unmarshal([]byte(js), &want) != nil {
+				continue
+			}
+			if y.Code != 0 || back.Code != 0 || json.Unmarshal([]byte(back.Stdout), &got) != nil || !reflect.DeepEqual(want, got) {
+				rc.Report("extra:j2y2j:unicode-line-breaks", fmt.Sprintf("%s converted to YAML (%q) and back gives %q", js, y.Stdout, back.Stdout),
+					M{"machine": "JsonText", "concrete": M{"argv": []string{"yq", "-p=json", "-o=yaml", "."}, "stdin": js}, "expected": js, "observed": back.Stdout})
+			}
+		}
+	}
 	rc.Set("states", res.Distinct+tv.Distinct)
 	rc.Set("transitions", res.Generated+tv.Generated)
 	rc.Set("traces_validated_against_impl", docsJudged)
